@@ -44,6 +44,11 @@ def bases(seed, rows=300):
     # H: a large statement (rows public rows a_j * x + y + c_j = 0 over two committed values): every single row deviates in turn
     from checks.C02 import big_statement
     out.append({"id": "H", "gates": 1, "big": True, "p": {"label": "verif", "pre": [], "cap": 1, "cbs": [], "ops": big_statement(rows) + [{"op": "commit", "v": 7, "vb": 4}]}})
+    # I: many commitments (each referenced by one row): every single commitment deviates in turn
+    many = rows
+    ops = [{"op": "commit", "v": j % 5 + 1, "vb": j + 1} for j in range(many)] + [{"op": "mul", "l": [["V", 0, 1]], "r": [["V", many - 1, 1]]}]
+    ops += [{"op": "con", "lc": [["V", j, j % 3 + 1]], "fix": j + 1} for j in range(many)]
+    out.append({"id": "I", "gates": 1, "big": True, "p": {"label": "verif", "pre": [], "cap": 1, "cbs": [], "ops": ops}})
     for b in out:
         b["seed"] = seed + ord(b["id"])
     return out
@@ -59,8 +64,11 @@ def deviations(b):
 
     if b.get("big"):
         # the large statement: the constant of every row, and the coefficient of x in every fourth row, changed by one
+        many = sum(1 for o in p["ops"] if o["op"] == "commit") > 10
         for i, o in enumerate(p["ops"]):
-            if o["op"] == "con":
+            if o["op"] == "commit" and many:
+                v = side(); v["ops"][i]["v"] = o["v"] + 1; devs.append(("commit-value-%d" % i, v, "reject"))
+            if o["op"] == "con" and not many:
                 v = side(); v["ops"][i]["lc"] = o["lc"] + [["1", 0, 1]]; devs.append(("ops-constant-%d" % i, v, "reject"))
                 if i % 4 == 3:
                     v = side(); v["ops"][i]["lc"][0][2] = o["lc"][0][2] + 1; devs.append(("ops-coefficient-%d-0" % i, v, "reject"))
@@ -148,7 +156,7 @@ def run(chk):
     # (B3) toy31723: TLC rebuilds both statements from the recorded calls; an accepted unaltered proof requires equal transcripts, the
     # verifier's constraints satisfied by the prover's assignment and agreeing bases (StatementBinding), and the code's verdict must be the
     # specification's exact verdict for the deviated statement (including the zero-gate value-base carve-out)
-    tp = [dict(p, expect_v="", expect_p="") for p in progs if not p["id"].startswith("bind-H-")]      # (the large statement: 256-bit curves only)
+    tp = [dict(p, expect_v="", expect_p="") for p in progs if not p["id"].startswith(("bind-H-", "bind-I-"))]      # (the large statement: 256-bit curves only)
     byid = {p["id"]: p for p in tp}
     trace, sums = vlib.record(chk, "toy31723", tp, "bind31723")
     for cfgname, fl in (("TraceStatementBinding", vlib.flags()),):
@@ -171,7 +179,7 @@ def run(chk):
     for p in progs:
         chk.count_case(["toy31723", p["id"]])
     chk.finish(
-        rule="a large statement (300 / 1100 rows over two committed values: the constant of every single row and the coefficient in every fourth row changed in turn) and seven base statements (one- and two-phase, zero to five gates, committed-only and constant-only constraints, application data before and "
+        rule="a large statement (300 / 1100 rows over two committed values: the constant of every single row and the coefficient in every fourth row changed in turn), a statement with 300 / 1100 commitments (each single commitment's value changed in turn) and seven base statements (one- and two-phase, zero to five gates, committed-only and constant-only constraints, application data before and "
              "during construction in both phases) x every single verifier-side deviation - transcript label; application data added, missing, changed, "
              "relabelled (before construction, in phase 1, inside a callback); each commitment's value or blinding changed; extra, missing, reordered "
              "commitment; each coefficient over a committed value and each constant changed; blinding base; value base - replayed on secq256k1, zorro, "
